@@ -22,7 +22,7 @@ from run import Broken, Violation
 
 from builders import mailgen
 
-GEN = ["Router", "Mail"]
+GEN = ["Router", "Mail", "PyRouter"]
 RULE = ("messages = stdlib-generated MIME trees (11 shapes: plain/html/alternative/mixed/related nestings, single-part "
         "attachment) x 9 body charsets x 4 transfer encodings x RFC 2047 headers in 8 charsets (Header class, hand-folded "
         "encoded words B/Q with '_' and =20, literal values on one line / folded by hand / folded by the stdlib) x 0..3 "
